@@ -107,11 +107,13 @@ def snp_events(run, tier, seed, tag):
             sb.reset()
             missing = rng.choice([0.0, 0.1, 0.4])
             r = run_lo(sb, samples, names, k, "a%d" % ci, threads=rng.choice([1, 2, 4]), missing=missing)
+            # a graph without any entry node (no variant at all) makes the tool exit with an explanatory error:
+            # that is a refusal, not a malformed result
+            refused = r["rc"] != 0 and "no entry node" in r.get("err", "")
             ev = {"ev": "lo.any", "id": 1000 + ci, "ctx": {"k": k, "missing": [int(round(missing * 1000)), 1000]},
-                  "panic": "" if r["rc"] == 0 else (r["err"] or "exit")}
-            if r["rc"] == 0:
-                ev["seqs"] = [b(s) for s in r["snps"][1]]
-            else:
+                  "refused": refused, "panic": "" if (r["rc"] == 0 or refused) else (r["err"] or "exit")}
+            ev["seqs"] = [b(s) for s in r["snps"][1]] if r["rc"] == 0 else []
+            if r["rc"] != 0:
                 ev["samples"] = samples
             events.append(ev)
             run.evaluations += 1
